@@ -72,6 +72,10 @@ FAILED_CONF = ("bad", "nan") + FAULT_CONF              # the voter is a failed v
 SPECIAL_CONF = ("none", "bad", "inf", "-inf", "nan") + FAULT_CONF
 
 
+class StrSub(str):
+    """a str subclass (what a str-valued Enum mixin or a translated string is)"""
+
+
 class FloatSub(float):
     """a float subclass (what numpy.float64 is)"""
 
@@ -340,6 +344,9 @@ class Spec:
             d = abs(st[0] - st[1])
             if d == 0 and exact_carrier(self.custom) and not dyadic(st[1]):
                 return True    # a Fraction / Decimal threshold is compared EXACTLY with the rounded float ratio
+            if d == 0 and self.strategy in ("weighted", "confidence") and \
+                    any(not dyadic(c * w) for (_, c, w) in self.P + self.B):
+                return True    # a non-dyadic confidence (3/10): the float sums are not exact, a tie is decided by rounding
             return 0 < d < NEAR
         if self.strategy == "threshold":
             t = self.eff_threshold(None)
@@ -403,6 +410,9 @@ class Stub:
                 return BrokenProtein()
             raise (RuntimeError if mode == 0 else KeyError)("voter failed")
         action = ACTION.get(k) or OTHER_ACTIONS[i % len(OTHER_ACTIONS)]
+        # the same text as another string OBJECT: built at run time (not interned: `is` would fail), or a str subclass
+        action = [action, "".join(list(action)), StrSub(action)][(i // 2) % 3]
+        key = ["confidence", "".join(["confi", "dence"]), StrSub("confidence")][(i // 5) % 3]
         if c == "unstr":                                  # answers that fail late: while the payload is rendered
             payload = Unprintable()
         elif c == "unbool":
@@ -417,13 +427,13 @@ class Stub:
         elif c == "none":
             payload = [None, "Action is safe.", {}, {"note": 1}, 0.25, ["confidence", 1], {"Confidence": 0.9}][i % 7]
         elif c == "bad":
-            payload = {"confidence": ["high", None, "", [1], "1,0", {}][i % 6]}
+            payload = {key: ["high", None, "", [1], "1,0", {}][i % 6]}
         elif c == "inf":
-            payload = {"confidence": [float("inf"), "inf", 1e308, "Infinity", 1.7e308][i % 5]}
+            payload = {key: [float("inf"), "inf", 1e308, "Infinity", 1.7e308][i % 5]}
         elif c == "-inf":
-            payload = {"confidence": [float("-inf"), "-inf", -1e308][i % 3]}
+            payload = {key: [float("-inf"), "-inf", -1e308][i % 3]}
         elif c == "nan":
-            payload = {"confidence": [float("nan"), "nan", "NaN"][i % 3]}
+            payload = {key: [float("nan"), "nan", "NaN"][i % 3]}
         else:
             f = float(Fraction(c))
             forms = [f, str(f), f, f" {f} ", Fraction(c), FloatSub(f)]
@@ -433,7 +443,7 @@ class Stub:
                 forms.append(int(f))                    # an int (and True for 1) is a number too
                 if f == 1.0:
                     forms.append(True)
-            payload = {"confidence": forms[(i // 3) % len(forms)]}
+            payload = {key: forms[(i // 3) % len(forms)]}
         return ActionProtein(action, payload, 1.0)
 
 
@@ -570,7 +580,7 @@ class C06(Prop):
         if low_conf:                                      # nobody fully confident: relative-confidence rules show up
             c = rng.choice(["0", "1/4", "1/4", "1/2", "1/2"])
         else:
-            c = rng.choice(CF) if rng.random() < 0.85 else rng.choice(["1", "1/2"])
+            c = rng.choice(CF) if rng.random() < 0.85 else rng.choice(["1", "1/2", "3/10"])   # 3/10 = CONFIDENCE_MIN
         if rng.random() < 0.06:                           # reports that are not a 0-1 number
             c = rng.choice(["inf", "inf", "nan", "2", "3/2", "-1/2", "-inf", "5"])
         if rng.random() < 0.05:                           # an answer that fails late, while it is turned into a ballot
@@ -840,6 +850,12 @@ class C06(Prop):
         spell_cases = [{"lines": ["cfg majority none 0"] + ["vote U:1:1:none"] * n_forms
                         + ["cfg weighted none 1"] + ["vote U:2:1:1 P:1:1:1/2 B:1:1:1/2"] * n_forms,
                         "note": "exhaustive action spellings"}]
+        # the confidence exactly at CONFIDENCE_MIN (documented 0.3: "minimum confidence to count vote") on either side
+        spell_cases.append({"lines": ["cfg confidence none 1", "vote P:1:1:3/10 B:1:1:1/4", "vote P:1:1:1/4 B:1:1:3/10",
+                                      "vote P:1:1:3/10 B:1:1:3/10 B:1:1:1/4", "vote P:1/2:1:3/10 P:1:1:1/4 B:1/4:1:1/2",
+                                      "vote P:1:1:3/10", "vote B:1:1:3/10 P:2:1:1/4", "cfg weighted none 1",
+                                      "vote P:1:1:3/10 B:1:1:1/4", "vote P:1:1:3/10 B:1:1:1/2"],
+                            "note": "exhaustive confidence boundary"})
         for cf in ("none", "bad", "inf", "-inf", "nan", "1", "1/2", "0", "2", "-1/2") + FAULT_CONF:
             spell_cases.append({"lines": ["cfg confidence none 1"] + [f"vote P:1:1:{cf} P:1/2:1:1/2 B:1:1:1/2"] * 21
                                 + ["cfg bayesian none 1"] + [f"vote B:1:1:{cf} P:1:1:1"] * 7,
@@ -883,7 +899,17 @@ class C06(Prop):
                         lines.append(self.vote_line(ballot))
             if not self._risky(lines):
                 carrier_cases.append({"lines": lines, "note": "exhaustive numeric carriers"})
-        return [{"name": "a voter whose answer fails at each point of the per-voter step (no answer / unreadable confidence / "
+        # one object voting more often than the history keeps (the code caps `_vote_history` at 1000 entries): every
+        # vote's newest and previous history entries, statistics, then `update_all_reliability` from the capped history
+        long_lines = ["cfg majority none 1", "colony 3"]
+        for i_ in range(1004):
+            long_lines.append(["vote P:_:_:none B:_:_:none B:_:_:none", "vote P:_:_:none P:_:_:none B:_:_:none",
+                               "vote B:_:_:none U:_:_:none X:_:_:none"][i_ % 3])
+        long_lines += ["relall permit", "attr strategy unanimous", "vote P:_:_:none P:_:_:none P:_:_:none", "relall block"]
+        long_cases = [{"lines": long_lines, "note": "exhaustive long history"}]
+        return [{"name": "one object voting 1004 times (past the 1000-entry cap of its history), then reliability updates "
+                         "from the capped history", "cases": long_cases},
+                {"name": "a voter whose answer fails at each point of the per-voter step (no answer / unreadable confidence / "
                          "unrenderable payload) x 7 strategies + emergency quorum x alone, next to a block, between a permit "
                          "and a block", "cases": fault_cases},
                 {"name": "thresholds and min_voters carried by int / bool / Fraction / Decimal / float subclass / int subclass "
@@ -961,7 +987,7 @@ class C06(Prop):
         except Exception:  # noqa
             return None
 
-    def _observe(self, q, n, prompt="proposal", skip_nondyadic=False, style=0, rec=None, side=None):
+    def _observe(self, q, n, prompt="proposal", skip_nondyadic=False, style=0, rec=None, side=None, prev=None):
         """one vote through the public entry point (three call styles in turn).  `rec`: what the installed callbacks
         were handed; `side`: receives the names of the other public reports (history, statistics) that do not match
         the returned result"""
@@ -988,12 +1014,12 @@ class C06(Prop):
             return f"raise:{type(e).__name__}", None
         V = self.m.VotingStrategy
         if side is not None:
-            side.extend(self._side_reports(q, r, n, st0))
+            side.extend(self._side_reports(q, r, n, st0, prev))
         if skip_nondyadic and nondyadic and r.strategy in (V.WEIGHTED, V.CONFIDENCE, V.BAYESIAN):
             return "skip:nondyadic", r                  # float sums of non-dyadic weights: not compared
         vt = lambda v: v.vote_type.value
         try:
-            votes = ",".join(f"{vt(v)}:{show_w(v.weight)}:{show_rat(v.confidence)}:{hexs(v.agent_id)}" for v in r.votes)
+            votes = ",".join(f"{vt(v)}:{show_w(v.weight)}:{show_w(v.confidence)}:{hexs(v.agent_id)}" for v in r.votes)
         except (ValueError, OverflowError):
             votes = "nan"
         gated = r.decision == self.m.VoteType.ABSTAIN
@@ -1010,14 +1036,22 @@ class C06(Prop):
         fired = "+".join(w + ("" if res is r else "!other") for (w, res) in rec) or "none"
         return f"{obs} cb={fired}", r
 
-    def _side_reports(self, q, r, n, st0):
-        """the other public reports of the same vote: `get_vote_history` and `get_statistics`"""
+    def _side_reports(self, q, r, n, st0, prev=None):
+        """the other public reports of the same vote: `get_vote_history` and `get_statistics`.  `prev`: the result of the
+        previous vote of this object - the entry before the newest one"""
         bad = []
         key = lambda x: (x.reached, x.decision, x.permit_votes, x.block_votes, x.abstain_votes, x.total_votes, len(x.votes))
         try:
             h = q.get_vote_history(1)
             if not h or key(h[-1]) != key(r):
                 bad.append("history")
+            if prev is not None:
+                h2 = q.get_vote_history(2)
+                if len(h2) != 2 or key(h2[0]) != key(prev) or key(h2[1]) != key(r):
+                    bad.append("history.previous")
+                hd = q.get_vote_history()
+                if not hd or key(hd[-1]) != key(r) or len(set(map(id, hd))) != len(hd):
+                    bad.append("history.default")
             st1 = self._stats(q)
             if st0 is None or st1 is None:
                 bad.append("statistics")
@@ -1042,7 +1076,7 @@ class C06(Prop):
         VT = self.m.VoteType
 
         def fresh_obj(pending=("majority", None, 1, False)):
-            return {"q": None, "pending": pending, "ctor": {}, "rec": []}
+            return {"q": None, "pending": pending, "ctor": {}, "rec": [], "prev": None}
         objs, cur = {}, 0
         o = fresh_obj()                                 # the current quorum object (constructed on first use)
 
@@ -1162,7 +1196,10 @@ class C06(Prop):
                     visible[li] = (q.strategy.value, None if ct is None else Fraction(float(ct)).limit_denominator(10 ** 6),
                                    int(q.min_voters), isinstance(q, self.m.EmergencyQuorum) and "changed")
                     sd = []
-                    obs.append(self._observe(q, len(ballot), skip_nondyadic=True, style=li, rec=o["rec"], side=sd)[0])
+                    ob, res = self._observe(q, len(ballot), skip_nondyadic=True, style=li, rec=o["rec"], side=sd, prev=o["prev"])
+                    obs.append(ob)
+                    if res is not None:
+                        o["prev"] = res
                     if sd:
                         side[li] = sd
                 else:
